@@ -253,6 +253,8 @@ GENS = {
     'C06': [('to_mef', g_to_mef)],
     'C03': [('to_rfi', g_to_rfi)],
     'C07': [('commute', g_c07)],
+    # the transformation that get_transform_fxn returns is to_mef bound to the fitted curves: C02 re-uses C06's enumeration
+    'C02': [('returned-transformation(to_mef)', g_to_mef)],
 }
 
 BOUNDS = {
@@ -264,6 +266,9 @@ BOUNDS = {
     'C06': 'D<=3 (quick) / 4 (thorough): every ordered subset of columns as sc_channels, every ordered request of <=2 columns, by '
            'position and by name, curve count = len(sc_channels) and +-1',
 }
+
+
+BOUNDS['C02'] = 'returned transformation: the C06 enumeration of to_mef (ordered subsets of curves / requests)'
 
 
 BOUNDS['C03'] = ('D<=3 (quick) / 4 (thorough): every ordered subset of columns by position, negative position and name; overrides '
